@@ -2,6 +2,7 @@ package rules
 
 import (
 	"fmt"
+	"os"
 	"sort"
 	"strings"
 	"sync"
@@ -1334,4 +1335,47 @@ func hasInexactMerge(v absint.Val) bool {
 		return false
 	}
 	return strings.Contains(iv.Lin.Key(), "join#")
+}
+
+
+// resolveUnder re-evaluates x on the paths where the given canonical propositions have
+// the given truth values: gated merges whose conditions (however written, however
+// nested) reduce to those propositions are resolved. It returns the single merge-free
+// value x has there, or ok=false if x still depends on other conditions.
+func resolveUnder(x *absint.Int, conds map[string]*absint.Bool, props map[string]bool) (*absint.Int, bool) {
+	o := absint.Ops{In: absint.NewInterner()}
+	bc := &absint.BoolCtx{Conds: conds}
+	pe := newExplorer(o, bc, props)
+	var leaf *absint.Int
+	ok := true
+	pe.resolve(x.Lin, func(v *absint.Int) {
+		if os.Getenv("SVDEBUG") != "" {
+			fmt.Println("RESOLVE leaf", trunc(v.Lin.Key()), pe.describe())
+		}
+		if leaf != nil && leaf.Lin.Key() != v.Lin.Key() {
+			ok = false
+		}
+		leaf = v
+	})
+	if os.Getenv("SVDEBUG") != "" {
+		fmt.Println("RESOLVE done over=", pe.over, pe.note, "props", props)
+	}
+	if pe.over || leaf == nil {
+		return nil, false
+	}
+	return leaf, ok
+}
+
+// propName is the canonical proposition (and its polarity) of a comparison.
+func propName(op string, x, y *absint.Int) (string, bool) {
+	bc := &absint.BoolCtx{}
+	e := bc.CmpExpr(&absint.CmpInfo{Op: op, X: x, Y: y})
+	val := true
+	for e.Op == "not" {
+		e, val = e.A[0], !val
+	}
+	if e.Op != "var" {
+		return "", false
+	}
+	return e.V, val
 }
